@@ -52,6 +52,15 @@ def cases(tier, seed, shard, nshards):
         if n % 13 == 0:
             yield {"k": "ymd", "v": list(tup), "neg": n % 26 == 0 and any(tup), "ctor": "dialect:%s" % CTOR_DIALECTS[(n // 13) % len(CTOR_DIALECTS)]}
     if shard == 0:
+        for big in (2 ** 53 + 1, 10 ** 17 + 1, 12345678901234567891, 2 ** 64 + 3):
+            for pos in range(7):
+                v_ = [0] * 7
+                v_[pos] = big
+                for ctor in [None, "pos"]:
+                    yield {"k": "ymd", "v": v_, "neg": False, "ctor": ctor}
+                    yield {"k": "ymd", "v": v_, "neg": True, "ctor": ctor}
+            yield {"k": "quarters", "q": big, "ctor": None}
+            yield {"k": "weeks", "q": -big, "ctor": None}
         for v in [1, 5, 10, 100, 1005, -1, -10, -1005]:
             for ctor in [None, "pos"] + ["dialect:%s" % x for x in CTOR_DIALECTS]:
                 yield {"k": "quarters", "q": v, "ctor": ctor}
@@ -64,6 +73,10 @@ def cases(tier, seed, shard, nshards):
             r = rnd.random()
             if r < 0.35:
                 tup.append(0)
+            elif r < 0.43:
+                # magnitudes beyond what a double holds exactly (2**53) and beyond 64 bits: every digit must survive
+                tup.append(rnd.choice([2 ** 53 + 1, 2 ** 53 + rnd.randint(1, 999), 10 ** 17 + 1, 12345678901234567891, 2 ** 63 + 1, 2 ** 64 + 3,
+                                       rnd.randint(10 ** 16, 10 ** 25), 10 ** rnd.randint(16, 30) + rnd.randint(1, 9), 99999999999999999]))
             elif r < 0.6:
                 tup.append(rnd.choice([10, 20, 100, 1000, 10 ** rnd.randint(1, 9), 101, 1001, 110]))
             else:
